@@ -198,7 +198,7 @@ func cmdCheck(args []string) int {
 			twins = append(twins, &tw)
 		}
 	}
-	timeout := 20
+	timeout := 30
 	if *tier == "thorough" {
 		timeout = 120
 	}
@@ -316,6 +316,14 @@ func cmdCheck(args []string) int {
 	}
 	if *evidence != "" {
 		writeEvidence(*evidence, *prop, *tier, seed, g, results, obls, twins, total, discharged, covers, bySolver, solverTime, violations, time.Since(t0).Seconds(), kf)
+	}
+	if os.Getenv("GOVC_SLOW") != "" {
+		// engineering aid: obligations that took more than a quarter of the quick timeout (candidates for flakiness under load)
+		for _, o := range obls {
+			if o.Time > 5 {
+				fmt.Printf("SLOW %s %.1fs %s\n", o.Name, o.Time, o.Solver)
+			}
+		}
 	}
 	fmt.Printf("%s %s: %d obligations, %d discharged, %d cover guards, %d violations, %.1fs\n", *prop, *tier, total, discharged, covers, violations, time.Since(t0).Seconds())
 	if violations > 0 {
